@@ -351,11 +351,18 @@ def task_sybyl_shapes(pr, repo):
                 pr.explore(ex, thunk, 'assign_sybyl_type %s %d %s' % (el, nb, nel))
 
 
+def task_bond_lengths(pr, repo):
+    from . import C17
+    C17.task_bond_distance(pr, repo)
+
+
 def run(pr, repo):
     pr.parallel([(task_setup_atoms, ()), (task_placement_safety, ()), (task_interactions, ()), (task_reject, ()), (task_precheck, ()), (C05.task_smallest, ()),
                  (C01.task_classify, ()), (C01.task_setup, ()),
                  # a group that only some conformation still has (atoms missing in model 1) is still reported in the average
-                 (C08.task_average, (2, ('census',))), (C16.task_version_hb, ()), (task_sybyl_shapes, ()), (C16.task_coupling_effects, ())])
+                 (C08.task_average, (2, ('census',))), (C16.task_version_hb, ()), (task_sybyl_shapes, ()), (C16.task_coupling_effects, ()),
+                 # hydrogens on under-coordinated atoms of elements without a tabulated X-H length (truncated phosphates, selenomethionine)
+                 (task_bond_lengths, ())])
     pr.assumptions += ['protonation inside setup_atoms is abstracted to "adds 0, 1 or 2 hydrogens bonded to that atom"',
                        'the pipeline as a whole is NOT proved exception free (ligand typing, ring search and hydrogen placement '
                        'rescale vectors that are zero for coincident/collinear atoms): bounded deletion monitor',
